@@ -32,7 +32,7 @@ func init() {
 		Level: "exploration",
 		Modes: []Mode{{Name: "wire-c2s", Weight: 3}, {Name: "wire-s2c", Weight: 3}, {Name: "handler-c2s", Weight: 2}, {Name: "handler-s2c", Weight: 2}},
 		Gen:   genC02, Run: runC02,
-		QuickRuns: 4000, ThoroughRuns: 40000,
+		QuickRuns: 4000, ThoroughRuns: 320000,
 		Rule: "plan = (direction and observation point, settled transport polling | websocket | after a completed upgrade, 1..16 emitting goroutines, burst of 1..12 events each with 0..4 attachments of 0..2000 bytes and optional pauses, direct emits or namespace broadcasts, latency/jitter/chunking, stalls concentrated on the send queue / dispatch code) from VERIF_SEED; " +
 			"non-trivial = at least two goroutines emitted at overlapping times and at least one event carried two or more attachments; distinct = distinct history digest among those",
 		Assumptions: []string{
